@@ -183,3 +183,8 @@ pub fn check_structure(
     }
     Ok(())
 }
+
+/// Structure invariants without per-element hashes (S1-S3, S6, S7).
+pub fn check_structure_public(d: &TableDump) -> Result<(), String> {
+    check_structure(d, Which { lawful_hash: false }, &|_| None)
+}
